@@ -292,13 +292,48 @@ def r11_4(ctx, rep):
     rep.ob(R, GEN + ":Generator.exitEquation", "lhs - rhs", ok,
            "the residual of `lhs = rhs` must be lhs - rhs with each operand derived only from its own side; found %s with sources %s"
            % (found, {k: sorted(v) for k, v in src.items() if k.startswith("src_")}))
-    # if-expression: condition k guards branch k, default is the last expression
-    fn = ctx.func(GEN, "Generator.exitIfExpression", R)
-    t = [norm(s) for s in walk_local(fn) if isinstance(s, ast.Assign)]
-    ok = "src = self.get_mx(tree.expressions[-1])" in t and "cond = self.get_mx(tree.conditions[-(cond_index + 1)])" in t \
-        and "expr1 = self.get_mx(tree.expressions[-(cond_index + 2)])" in t and "src = ca.if_else(cond, expr1, src, True)" in t
-    rep.ob(R, GEN + ":Generator.exitIfExpression", "condition/branch pairing", ok,
-           "if-expression must fold from the else value backwards pairing condition -(k+1) with branch -(k+2)")
+    # if-expression / if-equation: condition k guards branch k, the else value is the default.
+    # Decided by interpreting the handler on symbolic inputs (sa/symexec.py), not by matching its text.
+    from ..symexec import Interp, Obj, SymExecError
+
+    def ite(c, a, b, *rest):
+        return ("ite", c, a, b)
+
+    def expect(conds, vals):
+        out = vals[-1]
+        for c, v in reversed(list(zip(conds, vals[:-1]))):
+            out = ("ite", c, v, out)
+        return out
+
+    for hname, mk in (("exitIfExpression", "expr"), ("exitIfEquation", "eq")):
+        fn = ctx.func(GEN, "Generator." + hname, R)
+        site = GEN + ":Generator." + hname
+        verdict, why = True, "conditions pair with their own branches for 1, 2 and 3 conditions"
+        for k in (1, 2, 3):
+            conds = ["c%d" % i for i in range(k)]
+            if mk == "expr":
+                vals = ["e%d" % i for i in range(k)] + ["else"]
+                tree = Obj(conditions=list(conds), expressions=list(vals))
+                want = expect(conds, vals)
+                calls_ = {"self.get_mx": lambda x: x, "ca.if_else": ite, "logger.debug": lambda *a: None}
+            else:
+                blocks = [["b%d_0" % i, "b%d_1" % i] for i in range(k)] + [["else_0", "else_1"]]
+                tree = Obj(conditions=list(conds) + [True], blocks=blocks)
+                want = expect(conds, [("vcat",) + tuple(b_) for b_ in blocks])
+                calls_ = {"self.get_mx": lambda x: x, "ca.if_else": ite, "ca.vertcat": lambda *a: ("vcat",) + tuple(a), "logger.debug": lambda *a: None}
+            src = {}
+            it = Interp(calls_, {"tree": tree, "self": Obj(src=src)})
+            try:
+                it.run(fn.body)
+            except SymExecError as e:
+                verdict, why = False, "handler could not be interpreted symbolically (%s)" % e
+                break
+            got = src.get(tree)
+            if got != want:
+                verdict, why = False, "with %d condition(s) the handler builds %s, Modelica means %s" % (k, got, want)
+                break
+        rep.ob(R, site, "condition/branch pairing", verdict,
+               "`if c1 then a elseif c2 then b else d` must translate to if_else(c1, a, if_else(c2, b, d)): " + why)
 
 
 # -- seeded variants ---------------------------------------------------------
